@@ -69,7 +69,7 @@ def main():
         missed_first = note.startswith('missed')
         final = m.get('final_check') or {}
         out.append('| %s | %s | %s | %s | %s |' % (m['id'], needs.replace('|', '\\|'), 'missed' if missed_first else 'caught',
-                                                  'caught' if (final.get('rc', first) == 1) else 'MISSED', note.replace('|', '\\|')[:300]))
+                                                  'caught' if (final.get('rc', first) == 1) else 'MISSED', note.replace('|', '\\|')[:480]))
     text = '\n'.join(out) + '\n'
     dp = os.path.join(V, 'DESIGN.md')
     s = open(dp).read()
